@@ -602,6 +602,15 @@ class Machine:
         a = args
         if fname == 'r_const':
             return a[0]
+        m = re.match(r'^(?:<R as (?:[\w:]*::)?NumCast>::from::<(\w+)>|(?:[\w:]*::)?cast::<(\w+), R>)$', fname)
+        if m:
+            # R's NumCast::from (left un-inlined by the depth limit): Some(r_const(x as f64))
+            x = a[0][0]
+            if is_sym(x):
+                return [1, to_real(x)]
+            if isinstance(x, bool):
+                x = int(x)
+            return [1, s.fl(float(x)) if not isinstance(x, (float, Fraction)) or s.mode == 'CONC' else x]
         m = re.match(r'^<(R|f64|f32) as ([\w:]+)>::(\w+)(?:::<(.*)>)?$', fname)
         if m:
             recv, trait, f = m.group(1), m.group(2).split('::')[-1], m.group(3)
@@ -698,6 +707,10 @@ class Machine:
                 except ValueError:
                     return [math.nan]
             return [app(f, 'Real', to_real(x))]
+        if f == 'sin_cos':
+            if conc:
+                return [math.sin(x), math.cos(x)]
+            return [app('sin', 'Real', to_real(x)), app('cos', 'Real', to_real(x))]
         if f == 'atan2':
             y = a[1][0]
             if conc:
